@@ -1,5 +1,6 @@
 //! Shared generators (DESIGN.md §3).
 pub mod text;
+pub mod zervgen;
 pub mod num;
 pub mod pep;
 use proptest::prelude::*;
